@@ -34,7 +34,7 @@ for d in sorted(os.listdir(f"{V}/seeded")):
         "confirmed_by": "tools/seedconfirm.sh / seedconfirm2.sh in the sub-agent's scratch worktree: (i) full pinned suite passes with the patch, (ii) the demonstration test fails with the patch, (iii) it passes without the patch; worktree removed afterwards",
         "rebased": os.path.exists(f"{p}/patch.orig.diff"),
         "expected_checks": prev.get("expected_checks") or [d.split("-")[0]],
-        "round": 2 if d.endswith("-2") else 1,
+        "round": prev.get("round_fixed") or (4 if d in ("C02-2", "C07-4", "C01-4") else int(d.split("-")[1])),
         "selftest": [{"check": x["property"], "caught": x["exit"] == 1 and x["violations"] > 0, "violations": x["violations"],
                       "obligations": x["obligations"][:5], "wall_s": x["wall_s"]} for x in runs],
     }
